@@ -143,13 +143,14 @@ func (node *PFCPNode) NewPFCPConn(lAddr, rAddr string, buf []byte) *PFCPConn {
 
 	p.setLocalNodeID(node.upf.nodeID)
 
+	// Update map of connections before the first message is handled: if that
+	// message ends the association, its completion must find the entry
+	node.pConns.Store(rAddr, p)
+
 	if buf != nil {
 		// TODO: Check if the first msg is Association Setup Request
 		p.HandlePFCPMsg(buf)
 	}
-
-	// Update map of connections
-	node.pConns.Store(rAddr, p)
 
 	go p.Serve()
 
